@@ -50,13 +50,56 @@ KNOWN = {
 }
 
 
-def run_op(op, kind, dt, layout, m, res, api, tm, rerr, bit, z3):
+def flipped_seeds(m, sym, osym, api, rerr, z3, torch_dt):
+    """for every data-dependent branch the run took (torch.equal(scale1, scale2), allclose, ...), solve for operand values that
+    take the other side; returns list of override dicts for (q, o)"""
+    outs = []
+    for i, (cond, outcome, kind_) in enumerate(m.path[:3]):
+        if kind_ != "branch":
+            continue
+        for ideal in (True, False):
+            try:
+                r = rerr.Rerr(m.ctx, ideal=ideal)
+                pre = list(r.cons)
+                for c2, o2, _ in m.path[:i]:
+                    pc = r.tr(c2)
+                    pre.append(pc if o2 else z3.Not(pc))
+                pc = r.tr(cond)
+                for s_ in (sym.get("scale"), osym.get("scale")):
+                    if s_ is not None:
+                        pre += [r.tr(t) >= rerr.rv(0.001) for t in s_.reshape(-1)] + [r.tr(t) <= rerr.rv(1) for t in s_.reshape(-1)]
+                # prefer a flip in which the two operands' scales are NOT identical (the interesting side of approximate tests)
+                extra = []
+                if sym.get("scale") is not None and osym.get("scale") is not None and sym["scale"].size == osym["scale"].size:
+                    extra = [z3.Or(*[r.tr(a) != r.tr(b) for a, b in zip(sym["scale"].reshape(-1), osym["scale"].reshape(-1))])]
+                v, secs, mdl = api.solve(pre + [z3.Not(pc) if outcome else pc] + extra, 20)
+                if v != "sat" and extra:
+                    v, secs, mdl = api.solve(pre + [z3.Not(pc) if outcome else pc], 20)
+                if v == "sat":
+                    ov = {}
+                    for nm, s_ in (("q", sym), ("o", osym)):
+                        d = {}
+                        for k, arr in s_.items():
+                            tdt = torch_dt if k == "scale" else None
+                            if k == "scale":
+                                vals = api.real_model_values(r, mdl, arr, torch.float64)
+                                d[k] = torch.tensor(vals, dtype=torch.float64)
+                        ov[nm] = d
+                    outs.append(ov)
+                    break
+            except NotImplementedError:
+                continue
+    return outs
+
+
+def run_op(op, kind, dt, layout, m, res, api, tm, rerr, bit, z3, override=None):
     """one inductive step; returns nothing, records queries/candidates"""
     from optimum.quanto.tensor import QTensor
 
-    q, sym = qops.make_state(kind, dt, m, "q", layout=layout)
-    o, osym = qops.second_operand(op, kind, q, dt, m)
-    cfg = f"{op.name} on {kind}/{layout}"
+    q, sym = qops.make_state(kind, dt, m, "q", layout=layout, override=(override or {}).get("q"))
+    o, osym = qops.second_operand(op, kind, q, dt, m, override=(override or {}).get("o"))
+    res._last_syms = (sym, osym)
+    cfg = f"{op.name} on {kind}/{layout}" + (" [flipped branch]" if override else "")
     enc = dict(kind="op", op=op.name, state=kind, dtype=api.dtn(dt), layout=layout)
 
     def enc_inputs(model=None, r=None):
@@ -108,6 +151,18 @@ def run_op(op, kind, dt, layout, m, res, api, tm, rerr, bit, z3):
         return
     ctx = m.ctx
     bits = q.qtype.bits if isinstance(q, QTensor) else 8
+    path = [(c_, o_) for c_, o_, k_ in m.path if k_ == "branch"]  # data-dependent branches this run took: assumptions of its claims
+
+    def path_pre(tr_):
+        out_ = []
+        for c_, o_ in path:
+            try:
+                e_ = tr_.tr(c_)
+                out_.append(e_ if o_ else z3.Not(e_))
+            except NotImplementedError:
+                pass
+        return out_
+
     f = tm.FMT[R[0].dtype] if R[0].dtype in tm.FLOATS else tm.FMT[dt]
     if op.kind == "dtype-move" and tm.FMT[dt]["p"] < f["p"]:
         f = tm.FMT[dt]  # rounding of the coarser of the two dtypes involved
@@ -131,7 +186,7 @@ def run_op(op, kind, dt, layout, m, res, api, tm, rerr, bit, z3):
             try:
                 r = rerr.Rerr(ctx, ideal=True)
                 neq = [r.tr(x) != r.tr(y) for x, y in zip(A, B) if x is not y]
-                v, secs, mdl = api.solve(r.cons + [z3.Or(*neq)], 30)
+                v, secs, mdl = api.solve(r.cons + path_pre(r) + [z3.Or(*neq)], 30)
                 if v == "sat":
                     res.candidate("value:" + op.name, "RERR-ideal", enc_inputs(mdl, r))
             except NotImplementedError:
@@ -139,7 +194,7 @@ def run_op(op, kind, dt, layout, m, res, api, tm, rerr, bit, z3):
             continue
         if op.kind == "compare":
             b = bit.Bit(ctx)
-            pre = list(b.side)
+            pre = list(b.side) + path_pre(b)
             for s_ in [sym.get("scale"), osym.get("scale")]:
                 if s_ is not None:
                     for t in s_.reshape(-1):
@@ -171,7 +226,7 @@ def run_op(op, kind, dt, layout, m, res, api, tm, rerr, bit, z3):
                 continue
             r = rerr.Rerr(ctx)
             xr, yr = r.tr(x), r.tr(y)
-            pre = list(r.cons)
+            pre = list(r.cons) + path_pre(r)
             for s_ in [sym.get("scale"), osym.get("scale")]:
                 if s_ is not None:
                     pre += [z3.And(r.tr(t) >= rv(f["fmin_norm"] * 2**16), r.tr(t) * 448 <= rv(f["fmax"])) for t in s_.reshape(-1) if t.uid in r.memo]
@@ -239,6 +294,12 @@ def run_case(case, res):
                         continue
                     with Session(res) as m:
                         run_op(op, kind, dt, layout, m, res, api, tm, rerr, bit, z3)
+                    if m.path and op.second in ("diff-scale", "same-scale"):
+                        # concolic step: re-run on the other side of each data-dependent branch
+                        sym, osym = res._last_syms
+                        for ov in flipped_seeds(m, sym, osym, api, rerr, z3, dt)[:2]:
+                            with Session(res) as m2:
+                                run_op(op, kind, dt, layout, m2, res, api, tm, rerr, bit, z3, override=ov)
         return
     if case["kind"] == "programs":
         cat = {o.name: o for o in qops.catalogue()}
